@@ -234,7 +234,7 @@ def probe_slots(plan, ref_lines):
 def main(chk):
     quick = chk.tier == 'quick'
     w2c2 = env.build_translator('plain')
-    nshapes = 90 if quick else 6000
+    nshapes = 300 if quick else 6000
     builds = [('gcc-O1', 'gcc', ['-O1'])] + ([] if quick else [('clang-O2', 'clang', ['-O2'])])
 
     def one(k):
